@@ -12,8 +12,10 @@ package main
 import (
 	"fmt"
 	"math/rand"
+	"os"
 	"sort"
 	"strings"
+	"time"
 
 	"github.com/cosmos72/gomacro/fast"
 )
@@ -470,7 +472,23 @@ func c05runReal(prog []*sx) string {
 		c05ir = nil // a failed declaration may leave the interpreter in a partial state
 		return "cerr " + err
 	}
+	// watchdog: a wrong jump target can loop without reaching an emit
+	done := make(chan struct{})
+	hung := false
+	go func() {
+		select {
+		case <-done:
+		case <-time.After(20 * time.Second):
+			hung = true
+			ir.Interrupt(os.Interrupt)
+		}
+	}()
 	vals, err := evalSrc(ir, "f()")
+	close(done)
+	if hung {
+		c05ir = nil
+		return "HANG " + truncate(strings.Join(c05trace, ","), 300)
+	}
 	if err != "" {
 		c05ir = nil
 		return "PANIC " + strings.Join(c05trace, ",") + " " + err
@@ -592,6 +610,8 @@ func c05exec(op string) Result {
 			key = "valid-program-rejected"
 		} else if strings.HasPrefix(out, "PANIC") {
 			key = "run-time-panic"
+		} else if strings.HasPrefix(out, "HANG") {
+			key = "does-not-terminate"
 		}
 		res.Viol = fmt.Sprintf("gomacro: %s ; compiled Go: %s ; source:\n%s", truncate(out, 400), truncate(want, 400), c05source(prog, "f"))
 		res.Key = key
